@@ -224,6 +224,39 @@ def sweeps(quick):
     add('GET on annotated fields', [ann_pair(T.map_(T.STRING, T.NAT), [('a', 1)], T.STRING, 'zz'), I('UNPAIR'), I('SWAP'), I('GET')])
     add('SOME / LEFT / CONS on annotated fields', [ann_pair(T.STRING, 's', T.NAT, 1), I('UNPAIR'), I('SOME'), I('SWAP'), I('LEFT', TY(T.INT)), I('PAIR'),
                                                     ann_pair(T.NAT, 2, T.NAT, 3), I('CAR'), I('NIL', TY(T.NAT)), I('SWAP'), I('CONS'), I('PAIR')])
+    # long inputs, many iterations, deep stacks, wide combs: thresholds at 9/10/11, 2**7, 2**8, 2**16
+    for n in (9, 10, 11, 127, 128, 255, 256, 257, 300):
+        nats = list(range(n))
+        add('ITER long list', [PUSH(T.NAT, 0), PUSH(T.list_(T.NAT), [(i * 37) % 101 for i in nats]), I('ITER', [I('ADD')])])
+        add('MAP long list', [PUSH(T.list_(T.NAT), nats), I('MAP', [PUSH(T.NAT, 3), I('MUL')])])
+        add('SIZE/MEM long set', [PUSH(T.set_(T.NAT), nats), I('DUP'), I('SIZE'), I('SWAP'), PUSH(T.NAT, n - 1), I('MEM'), I('PAIR')])
+        add('ITER long set order', [I('NIL', TY(T.STRING)), PUSH(T.set_(T.STRING), O.sort_unique(T.STRING, [str(i) for i in nats])), I('ITER', [I('CONS')])])
+        add('ITER long map order', [I('NIL', TY(T.INT)), PUSH(T.map_(T.INT, T.NAT), [(i - n // 2, i) for i in nats]), I('ITER', [I('CAR'), I('CONS')])])
+        add('UPDATE into long map', [PUSH(T.map_(T.NAT, T.NAT), [(2 * i, i) for i in nats]), PUSH(T.option(T.NAT), ('Some', 5)), PUSH(T.NAT, n), I('UPDATE'),
+                                      I('NIL', TY(T.NAT)), I('SWAP'), I('ITER', [I('CAR'), I('CONS')])])
+        add('CONCAT long list', [PUSH(T.list_(T.STRING), [str(i) for i in nats]), I('CONCAT')])
+        add('LOOP many iterations', [PUSH(T.NAT, 0), PUSH(T.BOOL, True), I('LOOP', [PUSH(T.NAT, 1), I('ADD'), I('DUP'), PUSH(T.NAT, n), I('COMPARE'), I('GT')])])
+        add('LOOP_LEFT many iterations', [PUSH(T.or_(T.NAT, T.STRING), ('L', 0)), I('LOOP_LEFT', [PUSH(T.NAT, 1), I('ADD'), I('DUP'), PUSH(T.NAT, n), I('COMPARE'), I('GT'),
+                                           I('IF', [I('LEFT', TY(T.STRING))], [I('DROP'), PUSH(T.STRING, 'done'), I('RIGHT', TY(T.NAT))])])])
+    for n in (255, 256, 257, 65535, 65536, 65537):
+        sv = ''.join('abcdefghij'[(i * 7) % 10] for i in range(n))
+        for off, ln in ((0, n), (n - 1, 1), (n, 0), (n - 3, 3), (n - 3, 4), (254, 3), (1, n - 1)):
+            add('SLICE long string', [PUSH(T.STRING, sv), PUSH(T.NAT, ln), PUSH(T.NAT, off), I('SLICE'), I('IF_NONE', [PUSH(T.NAT, 0)], [I('SIZE')])])
+        add('SIZE long string', [PUSH(T.STRING, sv), I('SIZE'), PUSH(T.BYTES, sv.encode()), I('SIZE'), I('PAIR')])
+        add('CONCAT long strings', [PUSH(T.STRING, sv), PUSH(T.STRING, 'x'), I('CONCAT'), I('SIZE')])
+        add('hash long bytes', [PUSH(T.BYTES, sv.encode()), I('BLAKE2B'), PUSH(T.BYTES, sv.encode()), I('SHA256'), I('PAIR')])
+    deep = [PUSH(T.NAT, 100 + i) for i in range(24)]
+    for n in (7, 8, 9, 10, 11, 15, 16, 17, 23):
+        add('DIG deep', deep + [I('DIG', N(n))])
+        add('DUG deep', deep + [I('DUG', N(n))])
+        add('DUP n deep', deep + [I('DUP', N(n))])
+        add('DROP n deep', deep + [I('DROP', N(n))])
+        add('DIP n deep', deep + [I('DIP', N(n), [PUSH(T.STRING, 'x')])])
+        add('PAIR n wide', deep + [I('PAIR', N(n))])
+        add('PAIR n; UNPAIR n', deep + [I('PAIR', N(n)), I('UNPAIR', N(n))])
+        for k in (0, 1, 2, n, n + 1, 2 * n - 3, 2 * n - 2):
+            add('GET k on a wide comb', deep + [I('PAIR', N(n)), I('GET', N(k))])
+            add('UPDATE k on a wide comb', deep + [I('PAIR', N(n)), PUSH(T.STRING, 'new'), I('UPDATE', N(k))])
     # CAST / RENAME no-ops
     add('CAST', [PUSH(T.NAT, 1), I('CAST', TY(T.NAT))])
     add('RENAME', [PUSH(T.NAT, 1), I('RENAME', annots=['@x'])])
